@@ -181,7 +181,7 @@ def run_format_traces(chk, scen_jobs):
     recs = [r for rs in runner.pmap(format_records, jobs) for r in rs]
     # corruptions of the first records: each must be rejected
     bad = []
-    for r in [x for x in recs if x['mem']][:16]:       # (an output that describes no byte at all has nothing a shifted address could contradict)
+    for r in [x for x in recs if x['mem']][:(16 if not os.environ.get('VERIF_C16_SELFTEST_ALL') else 100000)]:       # (an output that describes no byte at all has nothing a shifted address could contradict)
         if not r['items']:
             continue
         it = json.loads(json.dumps(r['items']))
@@ -196,7 +196,14 @@ def run_format_traces(chk, scen_jobs):
                 continue
             rows[-1]['addr'] += 1
         else:
-            it.insert(0, {'k': 'addr', 'a': 1, 'data': []}) if it[0]['k'] == 'data' else it[0].update(a=it[0]['a'] + 1)
+            # shift the address that governs the first data item (an address line that no data follows pins nothing)
+            di = next((i for i, x in enumerate(it) if x['k'] == 'data' and x['data']), None)
+            if di is None:
+                continue
+            if di > 0 and it[di - 1]['k'] == 'addr':
+                it[di - 1]['a'] += 1
+            else:
+                it.insert(di, {'k': 'addr', 'a': (1 if di == 0 else 9999), 'data': []})
         bad.append(dict(r, items=it, what='CORRUPTED ' + r['what']))
         if r['mem']:
             bad.append(dict(r, mem=r['mem'][:-1], what='CORRUPTED(mem) ' + r['what']))
